@@ -363,7 +363,7 @@ def ay_pairing(chk, prog):
         chk.check(paired, "T-PAIR/ZXAyChip.regs/%s" % fpath.split("::")[-1],
                   "%s stores into the AY register file without forwarding to the sound generator: read-back changes, sound does not" % fpath.split("::")[-1])
         chk.count("ay-reg-writers")
-    chk.floor("ay-reg-writers", 2)
+    chk.floor("ay-reg-writers", 1)      # one shared store helper, or the port write and the snapshot restore separately
     # set_regs: forwards all 16 registers with the stored bytes
     SET = prog.fn_path("rustzx_core", "ZXAyChip::set_regs")
     w = Walker(prog, loop_bound=2)
